@@ -98,6 +98,29 @@ def check(run):
                         ok, why = False, f'raises {e}'
                     run.check(ok, 'D3', ename if not ok else f'{ename}:{fname}:{name}[{opt_name(opt)}]', f'{ename} on {fname}: {why}', wb)
                     run.evaluations += 1
+    # every parse hands out a fresh object: what an earlier caller did with the slice / builder it got does not show in a later parse of the same bytes
+    for name in ('diamond', 'single-13bits'):
+        roots = dags[name]
+        it = Interp(prog)
+        c = bocrun.build(it, roots[0])
+        raw = cm.call_method(it, c, 'to_boc', K(False), K(False), K(False))
+        want = bocrun.skey(roots[0])
+        for ename, use in (('Slice.one_from_boc', lambda o: cm.call_method(it, o, 'load_bits', K(3))),
+                           ('Builder.one_from_boc', lambda o: cm.call_method(it, o, 'store_uint', K(5), K(3))),
+                           ('Cell.one_from_boc', lambda o: cm.call_method(it, cm.call_method(it, o, 'begin_parse'), 'load_bits', K(3)))):
+            if ename.startswith('Builder') and roots[0].exotic:
+                continue
+            try:
+                cls_ = prog.cls(ename.split('.')[0])
+                first = it.call(it.getattr(cls_, 'one_from_boc'), [raw], {})
+                use(first)
+                second = it.call(it.getattr(cls_, 'one_from_boc'), [K(bytes(raw.v))], {})
+                ok = bocrun.ckey(it, second) == want and second is not first
+                why = 'a fresh object with the whole content' if ok else ('the object handed out before (already used by its first caller)' if second is first else 'different content')
+            except RaiseEx as e:
+                ok, why = False, f'raises {e}'
+            run.check(ok, 'D3', f'{ename}[second parse of the same bytes]' if not ok else f'{ename}:again:{name}', f'{ename} twice on the same bytes, the first result used in between: the second call returns {why}', wb)
+            run.evaluations += 1
     # garbage in unknown form is rejected
     it = Interp(prog)
     try:
